@@ -2049,6 +2049,12 @@ func (sc *serverConn) ackSettings(st *Settings) {
 	// peer set before, and resetting the encoder to the default would have it
 	// use a table the peer has said it does not have.
 	if st.hasTableSize {
+		// A frame may carry the parameter more than once, and the smallest
+		// value is one the peer's decoder has been through.
+		if st.tableSizeMin < st.HeaderTableSize() {
+			sc.enc.SetMaxTableSize(st.tableSizeMin)
+		}
+
 		sc.enc.SetMaxTableSize(st.HeaderTableSize())
 	}
 
